@@ -251,9 +251,15 @@ func genFTy(r *vh.Rand, scope string) (FTy, string) {
 		return FTy{Kind: TFloat, F64: r.Bool(), List: genLPay(r, true, false)}, ""
 	case 8:
 		t := FTy{Kind: TDate, List: genLPay(r, false, false)}
+		if r.Chance(50) {
+			t.Txt = genTxtRules(r, []string{"2020-01-01", "1999-12-31", "2024-02-29"})
+		}
 		return t, ""
 	case 9:
 		t := FTy{Kind: TDecimal, List: genLPay(r, true, false)}
+		if r.Chance(50) {
+			t.Txt = genTxtRules(r, []string{"0", "10.5", "-3.25", "100"})
+		}
 		return t, ""
 	case 10:
 		return FTy{Kind: TTimestamp, List: genLPay(r, true, false)}, ""
@@ -261,11 +267,38 @@ func genFTy(r *vh.Rand, scope string) (FTy, string) {
 		return FTy{Kind: TObject, Flatten: r.Chance(40)}, ""
 	case 12:
 		if r.Bool() {
-			return FTy{Kind: TAny}, ""
+			return FTy{Kind: TAny, List: genLPay(r, false, false)}, ""
 		}
 		return FTy{Kind: TOneof, List: genLPay(r, false, false)}, ""
 	}
 	panic("unreachable")
+}
+
+func genTxtRules(r *vh.Rand, vals []string) *TxtRules {
+	t := &TxtRules{XMin: optBool(r), XMax: optBool(r)}
+	if r.Chance(60) {
+		t.Min = ptr(vh.Pick(r, vals))
+	}
+	if r.Chance(60) {
+		t.Max = ptr(vh.Pick(r, vals))
+	}
+	if t.Min == nil && t.Max == nil && t.XMin == nil && t.XMax == nil {
+		return nil
+	}
+	return t
+}
+
+// genProp04: a property over every field type, as array or map now and then,
+// with descriptions (now and then one the reader treats specially)
+func genProp04(r *vh.Rand, name string) genDecl {
+	gd := genProp(r, name, "all")
+	if gd.P.PK == PSingle && !gd.P.Opt && r.Chance(6) && gd.P.T.Kind != TOneof && gd.P.T.Kind != TAny {
+		gd.P.PK = PMap
+	}
+	if gd.P.Desc != "" && r.Chance(10) {
+		gd.P.Desc = vh.Pick(r, []string{"# not a description", "two  spaces", "ends with space "})
+	}
+	return gd
 }
 
 var descWords = []string{"the", "quick", "id", "of", "a", "thing", "x2", "value.", "(unit)"}
